@@ -241,6 +241,26 @@ func wrapCrashes(c *Ctx, ops []M, cp crashPoints) []M {
 		out[i] = M{"op": "crash", "point": pts[c.Rng.Intn(len(pts))], "hit": hit, "inner": op}
 		crashes++
 	}
+	// what typically follows a dataset whose creation was cut short: the next dataset is created, both are
+	// written and read (a dataset id handed out twice would mix their data)
+	for i := range out {
+		if gets(out[i], "op") != "crash" || gets(getm(out[i], "inner"), "op") != "createDs" || c.Rng.Intn(3) == 0 {
+			continue
+		}
+		a := gets(getm(out[i], "inner"), "name")
+		b := fmt.Sprintf("z%d", i)
+		ent := func(id string, v int) M {
+			return M{"id": id, "deleted": false, "props": M{"ns3:p0": v}, "refs": M{}}
+		}
+		out = append(out, M{"op": "createDs", "name": b},
+			M{"op": "store", "ds": a, "ents": []M{ent("ns3:e1", 100+i), ent("ns3:e2", 200+i)}},
+			M{"op": "store", "ds": b, "ents": []M{ent("ns3:e1", 300+i), ent("ns3:e3", 400+i)}},
+			M{"op": "q", "q": "list", "ds": a, "pages": []int{0}}, M{"op": "q", "q": "list", "ds": b, "pages": []int{0}},
+			M{"op": "q", "q": "changes", "ds": a, "since": 0, "limits": []int{0}, "latestOnly": false},
+			M{"op": "q", "q": "changes", "ds": b, "since": 0, "limits": []int{0}, "latestOnly": false},
+			M{"op": "q", "q": "entity", "id": "ns3:e1", "scope": []string{b}})
+		break
+	}
 	if crashes == 0 {
 		// make sure every history has one
 		for i := len(ops) - 1; i >= 2; i-- {
